@@ -62,6 +62,10 @@ SHARED = [
     # in every build (never whichever a hash map happens to yield first)
     '.macro Setup\n ldi r16, 1\n.endm\n.macro setup\n ldi r16, 2\n.endm\n.macro SETUP\n ldi r16, 3\n nop\n.endm\n.macro sEtUp\n .dw 4\n.endm\n setup\n Setup',
     '.macro Init\n bogus r1\n.endm\n.macro INIT\n nop\n.endm\n.macro init\n ret\n.endm\n.macro iNit\n .error "x"\n.endm\n init',
+    # a build that selects the reduced core and then FAILS, next to builds that use lds/sts on the default device and on
+    # another device: nothing of the failed build (not even a core flag) may reach the next build on the same thread
+    '.device ATtiny20\n mul r0, r1', '.device ATtiny20\n nop\n bogus r1', '.device ATtiny20\n lds r16, 0x40\n.error "stop"',
+    ' lds r16, 0x0123\n sts 0x0060, r17\n rjmp pc', '.device ATmega8\n lds r16, 0x0123\n sts 0x0060, r17', '.device ATtiny20\n lds r16, 0x40\n sts 0x41, r17',
     # data, eeprom, messages
     '.eseg\n.db 1, 2, 3\n.cseg\n nop\n.message "a"\n.message "b"',
     '.eseg\n.db 9\n.cseg\n ret\n.message "b"\n.message "a"',
@@ -99,6 +103,11 @@ def run(tier, seed, model_ok):
         os.makedirs(os.path.join(root, 'app')); open(os.path.join(root, 'app', 'app.asm'), 'w').write('.include "cfg.inc"\n .dw CFG\n')
         for i, l in enumerate(lib):
             add('fl%d' % i, 'F', '%s %s' % (vlib.hx(os.path.join(root, 'app', 'app.asm')), vlib.hx(l)), 'app.asm includes cfg.inc found through include directory lib%d' % i)
+        # the same name in TWO of the directories a build is given: which copy is taken must not depend on what an
+        # earlier build (with fewer or other directories) found
+        for i, ls_ in enumerate([(0, 1), (1,), (0, 1), (1, 2), (2,), (0, 2), (0, 1, 2), (2, 1)]):
+            add('fm%d' % i, 'F', '%s %s' % (vlib.hx(os.path.join(root, 'app', 'app.asm')), ','.join(vlib.hx(lib[j]) for j in ls_)),
+                'app.asm includes cfg.inc with include directories %s' % ', '.join('lib%d' % j for j in ls_))
         add('fl_none', 'F', '%s -' % vlib.hx(os.path.join(root, 'app', 'app.asm')), 'app.asm includes cfg.inc with no include directory: must fail')
         # failures whose text comes from the operating system: a file that is not UTF-8 (as main file, as an include two
         # levels down), a directory in place of a file, a missing include.  The text must name the file, not anything
